@@ -61,6 +61,60 @@ type val struct {
 	chain []string
 	// extobj: set once the paired error was tested and the failing branch left
 	checked *bool
+	// cond: a boolean term bound to a variable (`_, ok := c.PublicKey.(*rsa.PublicKey)`); iexp: an integer term (s = "big" | "int");
+	// bigcmp: x.Cmp(y) with term = x, term2 = y; key: the variable bound by a type assertion on c.PublicKey (i = type tag, s = short name)
+	term  interface{}
+	term2 interface{}
+}
+
+// dynamic types of c.PublicKey the fragment knows: tag values of the pseudo field "PublicKey#type" (shared with harness/bodies.go)
+var keyTypeTags = map[string]struct {
+	tag   int64
+	short string
+}{
+	"*crypto/rsa.PublicKey":                  {1, "rsa"},
+	"*github.com/zmap/zcrypto/dsa.PublicKey": {2, "dsa"},
+}
+
+const keyTypeField = "PublicKey#type"
+
+// integer-valued fields of a key object: short name -> field -> "big" | "int"
+var keyIntFields = map[string]map[string]string{
+	"rsa": {"N": "big", "E": "int"},
+	"dsa": {"P": "big", "Q": "big", "G": "big", "Y": "big"},
+}
+
+// c.PublicKey.(*T): the key value (not yet guarded)
+func (t *trans) keyAssert(x *ast.TypeAssertExpr) (val, bool) {
+	if x.Type == nil {
+		return val{}, false
+	}
+	base, ok := t.tryValue(x.X)
+	if !ok || base.kind != "path" || base.path != "PublicKey" {
+		return val{}, false
+	}
+	kt, ok := keyTypeTags[t.typeOf(x.Type).String()]
+	if !ok {
+		unsupported("type assertion to %s", exprString(x.Type))
+	}
+	noteField(keyTypeField, "int")
+	return val{kind: "key", i: kt.tag, s: kt.short}, true
+}
+
+// an integer term of a tracked value (constant, integer field, iexp)
+func (t *trans) iexpOf(v val, e ast.Expr) (interface{}, bool) {
+	switch v.kind {
+	case "iexp":
+		return v.term, true
+	case "int":
+		return T{"lit", v.i}, true
+	case "path":
+		if v.path != "" && fieldKind(t.typeOf(e)) == "int" {
+			noteField(v.path, "int")
+			return T{"fld", v.path}, true
+		}
+	}
+	return nil, false
 }
 
 // external functions the model takes as parameters (Env): names are shared with harness/bodies.go, ids are positions here
@@ -96,6 +150,7 @@ type trans struct {
 	env    map[types.Object]val
 	depth  int
 	byPath map[string]*packages.Package
+	poison map[types.Object]bool // variables overwritten through a method call (z.Mod(x, y)): no longer tracked
 }
 
 var bodyFields = map[string]string{} // path -> kind (bool | int | str | lstr | loid | lint | lopaque)
@@ -103,7 +158,7 @@ var bodyFields = map[string]string{} // path -> kind (bool | int | str | lstr | 
 const certType = "*github.com/zmap/zcrypto/x509.Certificate"
 
 func (t *trans) child(p *packages.Package) *trans {
-	return &trans{p: p, env: map[types.Object]val{}, depth: t.depth + 1, byPath: t.byPath}
+	return &trans{p: p, env: map[types.Object]val{}, depth: t.depth + 1, byPath: t.byPath, poison: t.poison}
 }
 
 func (t *trans) typeOf(e ast.Expr) types.Type {
@@ -295,6 +350,9 @@ func (t *trans) value(e ast.Expr) val {
 		if obj == nil {
 			obj = t.p.TypesInfo.Defs[x]
 		}
+		if t.poison[obj] {
+			unsupported("identifier %s was overwritten", x.Name)
+		}
 		if v, ok := t.env[obj]; ok {
 			return v
 		}
@@ -321,6 +379,19 @@ func (t *trans) value(e ast.Expr) val {
 		}
 		base := t.value(x.X)
 		switch base.kind {
+		case "key":
+			if sel := t.p.TypesInfo.Selections[x]; sel == nil || sel.Kind() != types.FieldVal {
+				unsupported("method value %s", exprString(x))
+			}
+			if base.s == "dsa" && x.Sel.Name == "Parameters" {
+				return base // embedded struct: key.Parameters.P is key.P
+			}
+			if k, ok := keyIntFields[base.s][x.Sel.Name]; ok {
+				path := "PublicKey#" + base.s + "." + x.Sel.Name
+				noteField(path, "int")
+				return val{kind: "iexp", s: k, term: T{"kfld", path, keyTypeField, base.i}}
+			}
+			unsupported("key field %s", exprString(x))
 		case "path":
 			p := x.Sel.Name
 			if base.path != "" {
@@ -343,7 +414,65 @@ func (t *trans) value(e ast.Expr) val {
 			unsupported("field %s of %s result", x.Sel.Name, base.s)
 		}
 		unsupported("selector %s", exprString(x))
+	case *ast.TypeAssertExpr:
+		if k, ok := t.keyAssert(x); ok {
+			return k
+		}
+	case *ast.BinaryExpr:
+		// machine-integer remainder by a non-zero constant
+		if x.Op == token.REM && isIntegerType(t.typeOf(x.X)) {
+			if k, ok := t.constOf(x.Y); ok && k.kind == "int" && k.i != 0 {
+				if l, ok := t.tryValue(x.X); ok {
+					if lt, ok := t.iexpOf(l, x.X); ok && l.s != "big" {
+						return val{kind: "iexp", s: "int", term: T{"tmod", lt, k.i}}
+					}
+				}
+			}
+		}
 	case *ast.CallExpr:
+		if name, _ := t.calleeName(x); name == "math/big.NewInt" && len(x.Args) == 1 {
+			if k, ok := t.constOf(x.Args[0]); ok && k.kind == "int" {
+				return val{kind: "iexp", s: "big", term: T{"lit", k.i}}
+			}
+		}
+		if name, _ := t.calleeName(x); strings.HasPrefix(name, "method:(*math/big.Int).") {
+			sel := x.Fun.(*ast.SelectorExpr)
+			switch name[len("method:(*math/big.Int)."):] {
+			case "BitLen":
+				if r, ok := t.tryValue(sel.X); ok && r.kind == "iexp" && r.s == "big" && len(x.Args) == 0 {
+					return val{kind: "iexp", s: "int", term: T{"bitLen", r.term}}
+				}
+			case "Cmp":
+				if len(x.Args) == 1 {
+					a, aok := t.tryValue(sel.X)
+					b, bok := t.tryValue(x.Args[0])
+					if aok && bok && a.kind == "iexp" && a.s == "big" && b.kind == "iexp" && b.s == "big" {
+						return val{kind: "bigcmp", term: a.term, term2: b.term}
+					}
+				}
+			case "Mod":
+				// z.Mod(x, y): the value is x mod y (Euclidean); z is overwritten, so its binding is dropped
+				if len(x.Args) == 2 {
+					a, aok := t.tryValue(x.Args[0])
+					b, bok := t.tryValue(x.Args[1])
+					if aok && bok && a.kind == "iexp" && a.s == "big" && b.kind == "iexp" && b.s == "big" {
+						if lit, ok := b.term.(T); ok && lit[0] == "lit" && lit[1].(int64) != 0 {
+							if id, ok := sel.X.(*ast.Ident); ok {
+								// the receiver's old value is read nowhere: it must itself be a tracked constant
+								if _, tracked := t.env[t.p.TypesInfo.Uses[id]]; !tracked {
+									unsupported("receiver of %s", exprString(x))
+								}
+								t.poison[t.p.TypesInfo.Uses[id]] = true
+							} else {
+								unsupported("receiver of %s", exprString(x))
+							}
+							return val{kind: "iexp", s: "big", term: T{"emod", a.term, lit[1]}}
+						}
+					}
+				}
+			}
+			unsupported("big.Int call %s", exprString(x))
+		}
 		if name, _ := t.calleeName(x); (name == "builtin.len" || name == "unicode/utf8.RuneCountInString") && len(x.Args) == 1 && isStringType(t.typeOf(x.Args[0])) {
 			inner := t.value(x.Args[0])
 			if (inner.kind == "elem" && inner.ek == "str") || inner.kind == "path" {
@@ -516,6 +645,9 @@ func (t *trans) cond(e ast.Expr) interface{} {
 			}
 		}
 		v := t.value(e.(ast.Expr))
+		if v.kind == "cond" {
+			return v.term
+		}
 		if v.kind == "path" && fieldKind(t.typeOf(e)) == "bool" {
 			noteField(v.path, "bool")
 			return T{"bool", v.path}
@@ -629,6 +761,38 @@ func (t *trans) compare(x *ast.BinaryExpr, cn string) interface{} {
 	if !lok || !rok {
 		unsupported("comparison %s", exprString(x))
 	}
+	// x.Cmp(y) OP k  (k in -1, 0, 1)  ≡  x OP' y
+	if r.kind == "bigcmp" && l.kind == "int" {
+		l, r = r, l
+		cn = flipCmp(cn)
+	}
+	if l.kind == "bigcmp" && r.kind == "int" {
+		// sign(x - y) OP k
+		var rel string
+		switch {
+		case r.i == 0:
+			rel = cn
+		case r.i == 1 && cn == "eq", r.i == 0 && cn == "gt", r.i == 1 && cn == "ge":
+			rel = "gt"
+		case r.i == -1 && cn == "eq", r.i == -1 && cn == "le":
+			rel = "lt"
+		case r.i == 1 && cn == "ne", r.i == 1 && cn == "lt":
+			rel = "le"
+		case r.i == -1 && cn == "ne", r.i == -1 && cn == "gt":
+			rel = "ge"
+		default:
+			unsupported("comparison %s", exprString(x))
+		}
+		return T{"icmp", l.term, rel, r2t(l.term2)}
+	}
+	if l.kind == "iexp" || r.kind == "iexp" {
+		lt, ok1 := t.iexpOf(l, x.X)
+		rt, ok2 := t.iexpOf(r, x.Y)
+		if ok1 && ok2 && (l.kind != "iexp" || l.s == "int") && (r.kind != "iexp" || r.s == "int") {
+			return T{"icmp", lt, cn, rt}
+		}
+		unsupported("comparison %s", exprString(x))
+	}
 	if l.kind != "path" && l.kind != "elem" && (r.kind == "path" || r.kind == "elem") {
 		l, r = r, l
 		x = &ast.BinaryExpr{X: x.Y, Y: x.X, Op: x.Op}
@@ -670,6 +834,8 @@ func (t *trans) compare(x *ast.BinaryExpr, cn string) interface{} {
 	return nil
 }
 
+func r2t(x interface{}) interface{} { return x }
+
 func stripParen(e ast.Expr) ast.Expr {
 	for {
 		p, ok := e.(*ast.ParenExpr)
@@ -702,6 +868,11 @@ func (t *trans) callCond(c *ast.CallExpr) interface{} {
 					return wrapChain(a.chain, T{"pExt", externID(externPredNames, short)})
 				}
 			}
+		}
+	}
+	if name == modPath+"/util.PrimeNoSmallerThan752" && len(c.Args) == 1 {
+		if a, ok := t.tryValue(c.Args[0]); ok && a.kind == "iexp" && a.s == "big" {
+			return T{"primes752", a.term}
 		}
 	}
 	if name == "method:(*net/url.URL).IsAbs" {
@@ -943,7 +1114,9 @@ func (t *trans) stmts(list []ast.Stmt, boolFn bool) interface{} {
 	case *ast.IfStmt:
 		saved := t.snapshot()
 		if s.Init != nil {
-			t.bind(s.Init)
+			if g := t.bind(s.Init); g != nil {
+				unsupported("unchecked type assertion in an if initialiser")
+			}
 		}
 		c := t.cond(s.Cond)
 		thenL := s.Body.List
@@ -971,8 +1144,15 @@ func (t *trans) stmts(list []ast.Stmt, boolFn bool) interface{} {
 		t.env = saved
 		return T{"ite", c, th, el}
 	case *ast.AssignStmt, *ast.DeclStmt:
-		t.bind(s)
-		return t.stmts(rest, boolFn)
+		g := t.bind(s)
+		r := t.stmts(rest, boolFn)
+		if g != nil {
+			if boolFn {
+				unsupported("unchecked type assertion in a boolean function")
+			}
+			return T{"assertInt", g[1], g[2], r}
+		}
+		return r
 	case *ast.RangeStmt:
 		return t.rangeStmt(s, rest, boolFn)
 	case *ast.BlockStmt:
@@ -998,10 +1178,13 @@ func (t *trans) snapshot() map[types.Object]val {
 }
 
 // bindings: e := util.GetExtFromCert(c, OID) ; var out lint.LintResult ; out.Status = lint.X
-func (t *trans) bind(s ast.Stmt) {
+func (t *trans) bind(s ast.Stmt) T {
 	switch x := s.(type) {
 	case *ast.DeclStmt:
 		gd, ok := x.Decl.(*ast.GenDecl)
+		if ok && gd.Tok == token.CONST {
+			return nil // uses are resolved by the type checker's constant values
+		}
 		if !ok || gd.Tok != token.VAR {
 			unsupported("declaration")
 		}
@@ -1012,8 +1195,22 @@ func (t *trans) bind(s ast.Stmt) {
 			}
 			t.env[t.p.TypesInfo.Defs[vs.Names[0]]] = val{kind: "out", i: 0}
 		}
-		return
+		return nil
 	case *ast.AssignStmt:
+		// key, ok := c.PublicKey.(*T)
+		if ta, isTA := x.Rhs[0].(*ast.TypeAssertExpr); isTA && len(x.Lhs) == 2 && len(x.Rhs) == 1 && x.Tok == token.DEFINE {
+			k, ok := t.keyAssert(ta)
+			if !ok {
+				unsupported("type assertion %s", exprString(ta))
+			}
+			if id, ok := x.Lhs[0].(*ast.Ident); ok && id.Name != "_" {
+				t.env[t.p.TypesInfo.Defs[id]] = k
+			}
+			if id, ok := x.Lhs[1].(*ast.Ident); ok && id.Name != "_" {
+				t.env[t.p.TypesInfo.Defs[id]] = val{kind: "cond", term: T{"int", keyTypeField, "eq", k.i}}
+			}
+			return nil
+		}
 		if len(x.Lhs) != 1 || len(x.Rhs) != 1 {
 			unsupported("assignment arity: %s", exprString(x.Rhs[0]))
 		}
@@ -1022,9 +1219,21 @@ func (t *trans) bind(s ast.Stmt) {
 			if !ok {
 				unsupported("define target")
 			}
+			if ta, isTA := x.Rhs[0].(*ast.TypeAssertExpr); isTA {
+				// key := c.PublicKey.(*T): panics unless the dynamic type is T
+				k, ok := t.keyAssert(ta)
+				if !ok {
+					unsupported("type assertion %s", exprString(ta))
+				}
+				t.env[t.p.TypesInfo.Defs[id]] = k
+				return T{"assertInt", keyTypeField, k.i}
+			}
 			v := t.value(x.Rhs[0])
 			if v.kind == "elem" {
 				unsupported("alias of a loop variable")
+			}
+			if v.kind == "bigcmp" {
+				unsupported("alias of a comparison result")
 			}
 			if v.kind == "path" && v.path != "" {
 				if k := fieldKind(t.typeOf(x.Rhs[0])); k == "" {
@@ -1032,7 +1241,7 @@ func (t *trans) bind(s ast.Stmt) {
 				}
 			}
 			t.env[t.p.TypesInfo.Defs[id]] = v
-			return
+			return nil
 		}
 		if x.Tok == token.ASSIGN {
 			if sel, ok := x.Lhs[0].(*ast.SelectorExpr); ok && sel.Sel.Name == "Status" {
@@ -1044,13 +1253,14 @@ func (t *trans) bind(s ast.Stmt) {
 							unsupported("non-constant status")
 						}
 						t.env[obj] = val{kind: "out", i: c.i}
-						return
+						return nil
 					}
 				}
 			}
 		}
 	}
 	unsupported("statement %s", fmt.Sprintf("%T", s))
+	return nil
 }
 
 // for _, x := range LIST { if P(x) { return R } }  rest   ⇒   if any(LIST, P) { R } else { rest }
@@ -1562,8 +1772,11 @@ func collectFields(term interface{}, into map[string]bool) {
 	}
 	if tag, ok := n[0].(string); ok {
 		switch tag {
-		case "bool", "int", "mask", "strEq", "isNil", "len", "anyS", "anyO", "anyI", "strP", "maskEq", "time":
+		case "bool", "int", "mask", "strEq", "isNil", "len", "anyS", "anyO", "anyI", "strP", "maskEq", "time", "fld", "assertInt":
 			into[n[1].(string)] = true
+		case "kfld":
+			into[n[1].(string)] = true
+			into[n[2].(string)] = true
 		case "time2":
 			into[n[1].(string)] = true
 			into[n[3].(string)] = true
@@ -1600,7 +1813,7 @@ func translateBodies(pkgs []*packages.Package, byPath map[string]*packages.Packa
 			if fd == nil || fd.Body == nil {
 				unsupported("no %s", method)
 			}
-			t := &trans{p: p, env: map[types.Object]val{}, byPath: byPath}
+			t := &trans{p: p, env: map[types.Object]val{}, byPath: byPath, poison: map[types.Object]bool{}}
 			if len(fd.Type.Params.List) != 1 || len(fd.Type.Params.List[0].Names) != 1 {
 				unsupported("parameters of %s", method)
 			}
